@@ -14,7 +14,7 @@ import re
 
 S = Sym
 PROPERTY = 'C06'
-PROPS_MODULES = ['C06', 'C06b']
+PROPS_MODULES = ['C06', 'C06b', 'C06c']
 ASSUMPTIONS = ['the printed text is compared with the model printer token by token, numeric tokens by value (Python float formatting of '
                'time bounds is outside the exact model)']
 
@@ -115,6 +115,8 @@ def run(ctx):
     if ctx.driver is not None:
         rt_items = [(entry, src, ast) for entry, src, _, _, ast in items if entry in ('expression', 'predicate')]
         rt_items += [(entry, str(ast), ast) for entry, src, _, _, ast in items if entry in ('expression', 'predicate') and not (entry == 'predicate' and ast.is_vacuous)]
+        # property level (Props/C06c): the printed form of every parsed property
+        rt_items += [('property', str(ast), ast) for entry, src, _, _, ast in items if entry == 'property']
         am = ctx.driver.run_parallel([dumps([S('rtcheck'), S(entry), src]) for entry, src, _ in rt_items])
         for (entry, src, ast), a in zip(rt_items, am):
             x = loads(a)
